@@ -752,6 +752,40 @@ def _resolve_backend_call(p, module, call, rename, depth):
 _NEGATED_OP = {ast.Eq: ast.NotEq, ast.NotEq: ast.Eq, ast.Lt: ast.GtE, ast.GtE: ast.Lt, ast.Gt: ast.LtE, ast.LtE: ast.Gt, ast.Is: ast.IsNot, ast.IsNot: ast.Is, ast.In: ast.NotIn, ast.NotIn: ast.In}
 
 
+def expand_pure_call(p, module, call, scope=None):
+    """`helper(a, k=b)` where helper is a project function that is just `return <expr>`: that expression with the
+    parameters replaced by the arguments (defaults included) - for reading conditions through extracted helpers.
+    None when the callee is anything else. The copy is detached (no CFG): use it for structure only."""
+    from sa.canon import _Subst, _copy
+
+    r = resolve_callee(p, call, module)
+    if not (r and r[0] == "func"):
+        return None
+    g = r[1]
+    body = [st for st in g.node.body if not (isinstance(st, ast.Expr) and isinstance(st.value, ast.Constant) and isinstance(st.value.value, str))]
+    a = g.node.args
+    if len(body) != 1 or not isinstance(body[0], ast.Return) or body[0].value is None or a.vararg or a.kwarg or g.cls is not None:
+        return None
+    if any(isinstance(x, (ast.Yield, ast.YieldFrom, ast.Await)) for x in ast.walk(body[0])) or any(isinstance(x, ast.Starred) for x in call.args) or any(k.arg is None for k in call.keywords):
+        return None
+    pos = [q.arg for q in a.posonlyargs + a.args]
+    mapping = {}
+    for q, d in zip(reversed(a.posonlyargs + a.args), reversed(a.defaults)):
+        mapping[q.arg] = d
+    for q, d in zip(a.kwonlyargs, a.kw_defaults):
+        if d is not None:
+            mapping[q.arg] = d
+    if len(call.args) > len(pos):
+        return None
+    for q, v in zip(pos, call.args):
+        mapping[q] = v
+    for k in call.keywords:
+        mapping[k.arg] = k.value
+    if set(pos + [q.arg for q in a.kwonlyargs]) - set(mapping):
+        return None
+    return _Subst(mapping).visit(_copy(body[0].value))
+
+
 def as_positive(t, pol):
     """a branch fact as one expression that is true: (`k in sol`, False) -> `k not in sol`; None when the negation of
     the test is not a single comparison"""
@@ -1342,3 +1376,35 @@ def loop_shared_mutables(fnode):
                     if isinstance(a, ast.Name) and a.id in cands and a.id not in into:
                         out.append((st, a.id))
     return out
+
+
+def _unwrap_seq(e):
+    while isinstance(e, ast.Call) and isinstance(e.func, ast.Name) and e.func.id in ("tuple", "list") and len(e.args) == 1 and not e.keywords:
+        e = e.args[0]
+    return e
+
+
+def selection_identity_tests(p, modules, expand=None):
+    """`[A[i] for i in P] == A` ("A permuted by P is A again") used where `P is the identity` is meant: the test also
+    holds for every P that only exchanges equal elements of A (a transposition of two axes of the same length).
+    Looks at equality tests directly and through one-expression helpers (`_same_shape(x, [x.shape[i] for i in perm])`).
+    -> (equality tests inspected, [(node, module, text of A, text of P)])"""
+    n, hits = 0, []
+    for f in modules:
+        for node in ast.walk(f.tree):
+            cmp_ = None
+            if isinstance(node, ast.Compare) and len(node.ops) == 1 and isinstance(node.ops[0], (ast.Eq, ast.NotEq)):
+                cmp_ = node
+            elif isinstance(node, ast.Call):
+                e = expand(f, node) if expand is not None else expand_pure_call(p, f, node)
+                if isinstance(e, ast.Compare) and len(e.ops) == 1 and isinstance(e.ops[0], (ast.Eq, ast.NotEq)):
+                    cmp_ = e
+            if cmp_ is None:
+                continue
+            n += 1
+            a, b = _unwrap_seq(cmp_.left), _unwrap_seq(cmp_.comparators[0])
+            for sel, whole in ((a, b), (b, a)):
+                if isinstance(sel, (ast.ListComp, ast.GeneratorExp)) and len(sel.generators) == 1 and not sel.generators[0].ifs and isinstance(sel.generators[0].target, ast.Name) and isinstance(sel.elt, ast.Subscript) and isinstance(sel.elt.slice, ast.Name) and sel.elt.slice.id == sel.generators[0].target.id:
+                    if norm(_unwrap_seq(sel.elt.value)) == norm(whole):
+                        hits.append((node, f, norm(whole), norm(sel.generators[0].iter)))
+    return n, hits
